@@ -1,4 +1,5 @@
 pub mod c01;
+pub mod c02;
 pub mod c03;
 pub mod c04;
 pub mod c04_l2;
@@ -25,6 +26,7 @@ use crate::engine::Run;
 pub fn dispatch(run: &mut Run) -> bool {
   match run.id.as_str() {
     "C01" => c01::run(run),
+    "C02" => c02::run(run),
     "C03" => c03::run(run),
     "C04" => c04::run(run),
     "C05" => c05::run(run),
